@@ -615,6 +615,13 @@ func osfsEngine(c *Ctx) {
 	}
 	// a directory link with an absolute target: its re-rooted twin inside the base holds a link, so does the host directory
 	corpus = append(corpus, []osNode{{"d", 'L', "@OUT@"}, {"@OUTREL@/l1", 'L', "inside-target"}, {"@OUTREL@/f", 'f', ""}, {"inside-target", 'f', ""}})
+	// link targets longer than NAME_MAX (up to PATH_MAX is legal): 267 bytes relative, 268 absolute, one in a chain
+	{
+		a, b, cc := strings.Repeat("a", 100), strings.Repeat("b", 100), strings.Repeat("c", 60)
+		long := a + "/" + b + "/" + cc + "/real"
+		corpus = append(corpus, []osNode{{a, 'd', ""}, {a + "/" + b, 'd', ""}, {a + "/" + b + "/" + cc, 'd', ""}, {long, 'f', ""},
+			{a + "/" + b + "/" + cc + "/rea", 'f', ""}, {"l1", 'L', long}, {"l2", 'L', "/" + long}, {"sub", 'L', a + "/" + b + "/" + cc}, {"d", 'd', ""}, {"d/l1", 'L', "../l1"}})
+	}
 	// long acyclic chains: c0 -> c1 -> ... -> c44 -> (a file inside | the secret outside, by absolute path | over-dotted)
 	for _, tail := range []string{"a", "@OUT@/secret", "../../../secret"} {
 		var chain []osNode
